@@ -1,7 +1,7 @@
-\* quick facet t = 3: q = 11, n = 4, EVERY polynomial of degree < 3 (1331), every committee, one challenge value
+\* quick facet t = 3: q = 11, n = 3, EVERY polynomial of degree < 3 (1331), every committee, one challenge value
 CONSTANTS
   Q = 11
-  NSet = {4}
+  NSet = {3}
   TMin = 3
   TMax = 3
   PolyMode = "all"
@@ -15,7 +15,7 @@ CONSTANTS
   SecrecyOn = TRUE
   MaxH = 2
   AscOnly = TRUE
-  MCKinds = {"none", "committee", "outsider"}
+  MCKinds = {"none", "scalar", "nonceOther"}
 SPECIFICATION MCSpec
 VIEW View
 CONSTRAINT Bound
